@@ -257,6 +257,9 @@ func gen(tier string, out *vlib.Out) {
 		"new limitstress max=1 g=8 iters=400",
 		"new limitstress max=0 g=4 iters=200",
 		"new segstress size=1 keys=2 g=8 iters=200",
+		"new segfirst size=1 g=4 rounds=300 variant=try",
+		"new segfirst size=8 g=4 rounds=300 variant=mix",
+		"new segfirst size=3 g=4 rounds=300 variant=lock",
 	}
 	for _, c := range corpus {
 		for _, l := range strings.Split(c, "\n") {
@@ -281,6 +284,20 @@ func gen(tier string, out *vlib.Out) {
 			g = vlib.Pick(r, []int{max + 1, 2*max + 1, 16})
 		}
 		out.Line("new limitstress max=%d g=%d iters=%d", max, g, iters*vlib.Pick(r, []int{300, 1000, 2000}))
+	}
+	// first-use races: every round starts on a FRESH instance that nothing has touched yet
+	nSF := 12
+	if tier == "thorough" {
+		nSF = 60
+	}
+	for i := 0; i < nSF; i++ {
+		size := vlib.Pick(r, []int{1, 3, 8, 1000})
+		rounds := iters * vlib.Pick(r, []int{200, 400})
+		if size == 1000 {
+			rounds /= 4
+		}
+		out.Line("new segfirst size=%d g=%d rounds=%d variant=%s", size, vlib.Pick(r, []int{2, 3, 4, 8}), rounds,
+			[]string{"try", "mix", "lock"}[i%3])
 	}
 	for i := 0; i < nSS; i++ {
 		out.Line("new segstress size=%d keys=%d g=%d iters=%d", vlib.Pick(r, []int{1, 2, 3, 7, 64}), r.Range(1, 4),
@@ -706,6 +723,209 @@ func segStressRound(size, nkeys, g, iters int, seed uint64, st *stats) (string, 
 	return fmt.Sprintf("viol=%d freefail=%d acq=%d tryfail=%d", viol.Load(), freefail, acq.Load(), tryfail.Load()), viol.Load() != 0 || freefail != 0
 }
 
+// firstUseKeys: empty / short / non-ASCII / long keys for the first-use rounds
+var firstUseKeys = [][]byte{{}, []byte("a"), []byte("key1"), []byte("键值-é"), []byte(strings.Repeat("long-key/", 40))}
+
+// spinBarrier releases its n participants as simultaneously as the machine allows
+type spinBarrier struct {
+	n   int32
+	cnt atomic.Int32
+}
+
+func (b *spinBarrier) wait() {
+	b.cnt.Add(1)
+	for i := 0; b.cnt.Load() < b.n; i++ {
+		if i%2000 == 1999 {
+			runtime.Gosched() // more participants than processors: do not starve the late ones
+		}
+	}
+}
+
+// segFirstUse is the directed black-box scenario for races on the FIRST use of a segment: every round
+// creates a fresh SegmentKeysLock that nothing has touched (no probe, no hook call), releases g
+// goroutines from a spin barrier and lets them all go for the same key (equal contents, one
+// allocation per goroutine).  Laws (all from the property, nothing white-box):
+//   - while nobody has unlocked, at most one TryLock/Lock on the key has succeeded, and a successful
+//     TryRLock only ever coexists with other readers (multi = 0);
+//   - inside Lock(k) … Unlock(k) nobody else is inside (owner probe; viol = 0);
+//   - after the winners have unlocked (each with the very string it locked), TryLock on fresh
+//     allocations of the key succeeds: nothing is left locked (leftlocked = 0).
+//
+// Zero winners among concurrent Try-calls are not flagged.  The first round that breaks a law ends
+// the scenario without any further unlock (an Unlock that resolves to another mutex is Go's
+// unrecoverable "Unlock of unlocked RWMutex"); if that fatal error happens anyway the check's crash
+// path reports this case.
+func segFirstUse(size, g, rounds int, variant string, seed uint64, st *stats) string {
+	r := vlib.NewRng(seed*104729 + 17)
+	zero, done := 0, 0
+	report := func(multi, viol, left int, extra string) string {
+		return fmt.Sprintf("multi=%d viol=%d leftlocked=%d done=%d zero=%d%s", multi, viol, left, done, zero, extra)
+	}
+	for round := 0; round < rounds; round++ {
+		kb := firstUseKeys[(round+int(seed))%len(firstUseKeys)]
+		s := syncx.NewSegmentKeysLock(uint32(size)) // fresh: the goroutines below make the very first access
+		bar := &spinBarrier{n: int32(g)}
+		keys := make([]string, g)
+		for i := range keys {
+			keys[i] = fresh(kb)
+		}
+		var panicked atomic.Value
+		var wg sync.WaitGroup
+		switch variant {
+		case "lock":
+			// blocking Lock with an owner probe; a goroutine that saw company does not unlock
+			var inside, viol, arrived atomic.Int32
+			spin := r.Range(50, 400)
+			for i := 0; i < g; i++ {
+				wg.Add(1)
+				go func(i int) {
+					defer wg.Done()
+					defer notePanic(&panicked)
+					bar.wait()
+					arrived.Add(1)
+					s.Lock(keys[i])
+					if inside.Add(1) != 1 {
+						viol.Add(1)
+						return
+					}
+					// stay inside until everybody has at least reached its Lock call (they arrive
+					// before calling it, so this cannot deadlock) and a little longer: a goroutine
+					// that wrongly got past Lock shows up here before anybody unlocks
+					for k := 0; (arrived.Load() < int32(g) || k < spin) && viol.Load() == 0; k++ {
+						if inside.Load() != 1 {
+							viol.Add(1)
+							return
+						}
+						if k%500 == 499 {
+							runtime.Gosched()
+						}
+					}
+					runtime.Gosched()
+					// black-box self-check before releasing: while this goroutine holds Lock(k), TryLock
+					// on equal contents fails (if it succeeds the lock taken above is not the one the
+					// key resolves to, and the Unlock below would hit another mutex)
+					if inside.Load() != 1 || s.TryLock(fresh(kb)) {
+						viol.Add(1)
+					}
+					if viol.Load() != 0 {
+						return
+					}
+					inside.Add(-1)
+					s.Unlock(keys[i])
+				}(i)
+			}
+			// a violation leaves goroutines blocked on a mutex that is deliberately not released
+			fin := make(chan struct{})
+			go func() { wg.Wait(); close(fin) }()
+			for waited := 0; ; {
+				select {
+				case <-fin:
+				case <-time.After(20 * time.Millisecond):
+					if viol.Load() != 0 {
+						waited++
+					}
+					if waited < 10 {
+						continue
+					}
+				}
+				break
+			}
+			if m := panicked.Load(); m != nil {
+				return "panic=" + m.(string)
+			}
+			if viol.Load() != 0 {
+				return report(0, int(viol.Load()), 0, fmt.Sprintf(" round=%d keylen=%d", round, len(kb)))
+			}
+		default:
+			// try: everybody TryLocks; mix: odd goroutines TryRLock
+			won := make([]bool, g)
+			read := make([]bool, g)
+			for i := 0; i < g; i++ {
+				read[i] = variant == "mix" && i%2 == 1
+				wg.Add(1)
+				go func(i int) {
+					defer wg.Done()
+					defer notePanic(&panicked)
+					bar.wait()
+					if read[i] {
+						won[i] = s.TryRLock(keys[i])
+					} else {
+						won[i] = s.TryLock(keys[i])
+					}
+				}(i)
+			}
+			wg.Wait() // everybody has tried, nobody has unlocked
+			if m := panicked.Load(); m != nil {
+				return "panic=" + m.(string)
+			}
+			writers, readers := 0, 0
+			for i := range won {
+				if won[i] && read[i] {
+					readers++
+				} else if won[i] {
+					writers++
+				}
+			}
+			if writers > 1 || (writers == 1 && readers > 0) {
+				return report(1, 0, 0, fmt.Sprintf(" round=%d keylen=%d writers=%d readers=%d", round, len(kb), writers, readers))
+			}
+			if writers+readers == 0 {
+				zero++
+			}
+			// unlock phase last, each winner with the very string it locked; while some winner
+			// (a reader among several) still holds, TryLock on equal contents must keep failing —
+			// checked after every release but the last, so that readers that do not share one mutex
+			// are noticed before a release can hit a mutex nobody holds
+			var winners []int
+			for i := range won {
+				if won[i] {
+					winners = append(winners, i)
+				}
+			}
+			early := false
+			if p := vlib.Catch(func() {
+				for n, i := range winners {
+					if read[i] {
+						s.RUnlock(keys[i])
+					} else {
+						s.Unlock(keys[i])
+					}
+					if n < len(winners)-1 && s.TryLock(fresh(kb)) {
+						early = true
+						return
+					}
+				}
+			}); p != "" {
+				return "panic=" + strings.TrimPrefix(p, "panic:")
+			}
+			if early {
+				return report(1, 0, 0, fmt.Sprintf(" round=%d keylen=%d writers=%d readers=%d trylock-succeeded-while-a-reader-still-held=1",
+					round, len(kb), writers, readers))
+			}
+		}
+		// nothing is held any more: TryLock on new allocations of the key succeeds
+		left := 0
+		if p := vlib.Catch(func() {
+			for n := 0; n < 2; n++ {
+				k := fresh(kb)
+				if s.TryLock(k) {
+					s.Unlock(k)
+				} else {
+					left++
+				}
+			}
+		}); p != "" {
+			return "panic=" + strings.TrimPrefix(p, "panic:")
+		}
+		done++
+		st.StressOps += int64(g)
+		if left != 0 {
+			return report(0, 0, left, fmt.Sprintf(" round=%d keylen=%d", round, len(kb)))
+		}
+	}
+	return report(0, 0, 0, "")
+}
+
 // notePanic records a panic of a stress goroutine instead of letting it kill the process
 func notePanic(v *atomic.Value) {
 	if r := recover(); r != nil {
@@ -796,6 +1016,15 @@ func run(ops []string, out *lineOut, st *stats) {
 				sc = c
 				st.Sizes[w[2]]++
 				out.Line("%s => ok", line)
+			case "segfirst":
+				st.Sizes[strconv.Itoa(kv(w, "size"))]++
+				variant := "try"
+				for _, x := range w {
+					if strings.HasPrefix(x, "variant=") {
+						variant = x[len("variant="):]
+					}
+				}
+				out.Line("%s => %s", line, segFirstUse(kv(w, "size"), kv(w, "g"), kv(w, "rounds"), variant, seed+uint64(n), st))
 			case "segstress":
 				st.Sizes[strconv.Itoa(kv(w, "size"))]++
 				out.Line("%s => %s", line, segStress(kv(w, "size"), kv(w, "keys"), kv(w, "g"), kv(w, "iters"), seed+uint64(n), st))
